@@ -346,6 +346,33 @@ theorem l3_frame_axes (N : Vec3 α) : (@l3_frame α 𝔽 N).vz = N ∧
     simp only [h10]
     split_ifs <;> ring
 
+/-! ## frame(N,up) fallback; slerp takes the short way -/
+
+/-- frame(N, up) falls back to frame(N) whenever up and N are nearly parallel OR anti-parallel (|up·N| ≥ 0.991) -/
+theorem l3_frame_up_fallback (N up : Vec3 α) (h : (991 / 1000 : α) ≤ |dot3 up N|) :
+    @l3_frame_up α 𝔽 N up = @l3_frame α 𝔽 N := by
+  have h' : (OfScientific.ofScientific 990000009 true 9 : α) < |up.x * N.x + up.y * N.y + up.z * N.z| := by
+    have : (OfScientific.ofScientific 990000009 true 9 : α) < 991 / 1000 := by norm_num
+    exact lt_of_lt_of_le this h
+  simp only [l3_frame_up, frame_Vec3_Vec3, l3_frame, dot_Vec3_Vec3, ofFieldT_abs, ofFieldT_ofScientific, gt_iff_lt, h',
+    decide_true, ↓reduceIte]
+
+/-- slerp takes the short way: it interpolates from whichever of ±a is closer to b, so negating the first
+    operand (the same rotation) never changes the result (dot ≠ 0). -/
+theorem q_slerp_neg_invariant (f : α) (a b : Quat α) (hd : @q_dot α 𝔽 a b ≠ 0) :
+    @q_slerp α 𝔽 f (@q_neg α 𝔽 a) b = @q_slerp α 𝔽 f a b := by
+  have h0 : (OfScientific.ofScientific 0 true 1 : α) = 0 := by norm_num
+  obtain ⟨ai, aj, ak, ar⟩ := a
+  obtain ⟨bi, bj, bk, br⟩ := b
+  simp only [gen_simp] at hd
+  have hd' : (-ar * br + -ai * bi + -aj * bj + -ak * bk) = -(ar * br + ai * bi + aj * bj + ak * bk) := by ring
+  rcases lt_or_gt_of_ne hd with hneg | hpos
+  · have h1 : ¬ (-(ar * br + ai * bi + aj * bj + ak * bk) < 0) := by linarith
+    simp only [gen_simp, ofFieldT_ofScientific, h0, hd', hneg, h1, decide_true, decide_false, ↓reduceIte, Bool.false_eq_true]
+  · have h1 : (-(ar * br + ai * bi + aj * bj + ak * bk) < 0) := by linarith
+    have h2 : ¬ (ar * br + ai * bi + aj * bj + ak * bk < 0) := by linarith
+    simp only [gen_simp, ofFieldT_ofScientific, h0, hd', h1, h2, decide_true, decide_false, ↓reduceIte, Bool.false_eq_true, neg_neg]
+
 /-! ## non-vacuity -/
 example : (2 : ℚ) * 2 + 0 * 0 + 0 * 0 ≠ 0 := by norm_num
 
